@@ -6,6 +6,7 @@ package main
 
 import (
 	"fmt"
+	"io"
 	"math/rand"
 	"net/http/httptest"
 	"net/url"
@@ -17,6 +18,7 @@ import (
 	"time"
 
 	"bytes"
+	"github.com/maruel/panicparse/v2/stack"
 	"github.com/maruel/panicparse/v2/stack/webstack"
 	xhtml "golang.org/x/net/html"
 )
@@ -302,6 +304,12 @@ func opLive(r *rand.Rand, n int, tier string) {
 		nRecv, nSel, nMu, nSleep, nLocked, nDeep := r.Intn(5), r.Intn(4), r.Intn(3), r.Intn(3), r.Intn(2), r.Intn(2)
 		depth := 5 + r.Intn(150)
 		wg.Add(nRecv + nSel + nMu + nSleep + nLocked + nDeep)
+		if i%2 == 0 {
+			// one generic function parked on the same line under two instantiations of different argument shape
+			wg.Add(2)
+			go parkGeneric(stop, struct{ a, b uintptr }{1, 2}, &wg)
+			go parkGeneric(stop, uintptr(3), &wg)
+		}
 		for k := 0; k < nRecv; k++ {
 			go parkRecv(stop, &wg)
 		}
@@ -342,6 +350,10 @@ func opLive(r *rand.Rand, n int, tier string) {
 		sleepers += nSleep
 		reg := fmt.Sprintf("parkRecv:%d,parkSelect:%d,parkMutex:%d,parkSleep:%d,parkLocked:%d,deep:%d", nRecv, nSel, nMu, sleepers, nLocked, nDeep)
 		emitScan(fmt.Sprintf("live-%d", i), buf, genSched(r, len(buf)), "eof", r.Intn(2) == 0, "live", strconv.Itoa(headers), reg)
+		// ... and what the handler does next with such a snapshot: aggregation at a level of the request's choosing
+		if s, _, _ := stack.ScanSnapshot(bytes.NewReader(buf), io.Discard, &stack.Opts{}); s != nil {
+			emitAggregate(fmt.Sprintf("live-agg-%d", i), s.Goroutines, levels[r.Intn(4)])
+		}
 		close(stop)
 		mu.Unlock()
 		time.Sleep(time.Millisecond)
